@@ -40,6 +40,7 @@ type Ctx struct {
 	samples      []any
 	nontrivial   map[string]bool
 	evaluations  int64
+	infraErr     error
 }
 
 // Finding is one entry of /verif/known_findings.json.
@@ -153,6 +154,15 @@ func (c *Ctx) violation(kind string, detail any) {
 	if len(c.Violations) < 20 {
 		c.Violations = append(c.Violations, p)
 	}
+}
+
+// infra records an infrastructure problem: the run ends with exit status 2, never with a verdict.
+func (c *Ctx) infra(err error) {
+	c.mu.Lock()
+	if c.infraErr == nil {
+		c.infraErr = err
+	}
+	c.mu.Unlock()
 }
 
 func (c *Ctx) addSample(s any) {
